@@ -282,6 +282,11 @@ def run (c : Cfg) : St → List Ev → List Verdict
     let p := isRateLimited c s e.now e.addr e.qtype
     p.2 :: run c p.1 r
 
+/-- Final limiter state of a history. -/
+def runState (c : Cfg) : St → List Ev → St
+  | s, [] => s
+  | s, e :: r => runState c (isRateLimited c s e.now e.addr e.qtype).1 r
+
 /-- Verdicts, within the whole history, of the events that fall in bucket `k`. -/
 def runK (c : Cfg) (k : Key) : St → List Ev → List Verdict
   | _, [] => []
